@@ -562,3 +562,8 @@ MANIFEST_ENTRY = dict(
     note='Pixel content is not modelled (PIL is FFI; crop/paste box semantics are a stated model); floats are exact rationals; '
          'configurations enumerated; creation-strategy call structure is checked under C08.',
 )
+
+# --- manifest text refreshed after rounds 6-8 (obligations added since the entry above was written)
+MANIFEST_ENTRY['text'] = MANIFEST_ENTRY['text'] + ' Creator side: upstream query per strategy, every in-grid tile of a meta tile is produced, create_tiles asks for exactly one meta tile per distinct meta tile of the request (also on a degree grid with ~1e-4 unit meta tiles).'
+MANIFEST_ENTRY['note'] = 'Pixel content is not modelled (PIL is FFI; crop/paste box semantics are a stated model); floats are exact rationals; configurations enumerated; concurrent call structure is checked under C08.'
+META['assumptions'] = list(META.get('assumptions', [])) + ['create-tiles obligations: the set() of the module is replaced by a list-backed set with symbolic equality; round() results of equal arguments are equal (congruence added to the relaxed rounding model)']
